@@ -270,6 +270,6 @@ func compareToChains(m refModel, dec [][][]ref.PX, cfg snap.Config, res map[int]
 }
 
 func init() {
-	register(&Prop{ID: "C18", Scopes: scopesValid, Judge: judgeC18,
+	register(&Prop{ID: "C18", PinnedFrom: []string{"C01"}, Scopes: scopesValid, Judge: judgeC18,
 		Rule: "all valid lattice polygons of the scopes whose reference-routed boundary visits no centre more than twice (premise evaluated per id by the reference router) x id sets x configs; oracle: every returned edge is a routed edge or straight run of routed edges, holes inside/on shell, signed area equals that of the routed chains; non-trivial = some centre is visited exactly twice (a collapse within the premise)"})
 }
